@@ -1017,6 +1017,8 @@ class AEval(dtable.Eval):
             return (cur, B(False)) if vals[0] in cur else (cur + [vals[0]], B(True))
         if m == "extend" and len(vals) == 1 and vals[0][0] == "list":
             return cur + list(vals[0][1]), UNIT
+        if m == "extend" and len(vals) == 1 and vals[0][0] == "tok":
+            return cur + [vals[0]], UNIT
         if m in ("pop", "pop_back") and not vals:
             return (cur[:-1], C("Some", cur[-1])) if cur else (cur, C("None"))
         if m == "clear" and not vals:
@@ -1367,6 +1369,10 @@ class AEval(dtable.Eval):
                 return B(was_new)
             elif m == "extend" and len(vals) == 1 and vals[0][0] == "list":
                 cur.extend(vals[0][1])
+            elif m == "extend" and len(vals) == 1 and vals[0][0] == "tok":
+                cur.append(vals[0])          # TokenStream::extend(TokenStream): concatenation
+            elif m == "extend" and len(vals) == 1 and vals[0][0] == "ctor" and vals[0][1] in ("Some", "None"):
+                cur.extend(vals[0][2][:1])   # extend(Option<T>)
             else:
                 raise Unknown("mutation " + m)
             env[rnode["path"]] = ("list", tuple(cur))
